@@ -45,7 +45,10 @@ def array_support(func):
                 vals.append(iterator(v, *args[1:], **kwargs))
 
             if isinstance(args[0], np.ndarray):
-                vals = np.array(vals)
+                if args[0].dtype == object and not any(isinstance(v, str) for v in vals):
+                    vals = np.array(vals, dtype=object)     # python integers of any size stay exact
+                else:
+                    vals = np.array(vals)
             return vals
         else:
             return func(*args, **kwargs)
@@ -282,7 +285,7 @@ def binary_repr(x, n_word=None, n_frac=None, prefix=None):
     if n_frac is None:
         val = np.binary_repr(int(x), width=n_word)
     else:
-        val = insert_frac_point(np.binary_repr(x, width=n_word), n_frac=n_frac)
+        val = insert_frac_point(np.binary_repr(int(x), width=n_word), n_frac=n_frac)
 
     if prefix is not None:
         val = add_binary_prefix(val, prefix=prefix)
@@ -482,7 +485,7 @@ def int_array(x):
         x = np.array(x)
 
     if x.dtype != complex:
-        x = np.array(list(map(int, x.flatten()))).reshape(x.shape)
+        x = np.array(list(map(int, x.flatten())), dtype=(object if x.dtype == object else None)).reshape(x.shape)
     else:
         x_real = np.vectorize(lambda v: v.real)(x)
         x_imag = np.vectorize(lambda v: v.imag)(x)
